@@ -68,7 +68,7 @@ func verifNewEnv(policy string, npieces int) *verifEnv {
 	e.counters = syncutil.NewCounters(npieces)
 	if policy == RarestFirstPolicy {
 		for i := 0; i < npieces; i++ {
-			e.counters.Set(i, verif.IntRange("num_peers_by_piece", 0, 2))
+			e.counters.Set(i, verif.IntRange("num_peers_by_piece", 0, verif.Bound("availability_max", 1, 2)))
 		}
 	}
 	return e
